@@ -80,4 +80,9 @@ CLAIMED = {
   text="For every enumerated accepted string the text round-trip, the re-parse and every padding are executed and must not change acceptance, String() (up to outer whitespace), any comparison against the probe set or any membership; rejected candidates must stay rejected under padding.",
   note="Universe = C01's quick universe and the range grammar of engine/gen/ranges.go; paddings from {SP, TAB, CR, LF} (single, thorough: also two-character).",
   ref="DESIGN.md 4 (C18)"),
+ "C05": dict(
+  technique="bounded-exhaustive enumeration of (ecosystem, shorthand construct, base tuple of every documented arity, probe of a boundary grid) on the real range parser and Contains against a table of documented desugarings evaluated with the ecosystem's own Compare",
+  text="Every documented shorthand x every base over the value set (zeros in leading positions, pre-release bases) is parsed and evaluated on a probe grid that contains the base, the version just below it, the last version before the upper bound, the upper bound and pre-releases around it; membership must equal the documented interval.",
+  note="The desugaring table is the oracle and is written from the ecosystems' documentation as restated in the property; upstream-disagreeing points (pre-releases of an exclusive upper bound outside npm) are don't-care and counted. Composer probes are stable, pypi probes final/post, maven bare versions and cargo bare versions are not claimed.",
+  ref="DESIGN.md 4 (C05)"),
 }
